@@ -234,6 +234,29 @@ fn templates() -> Vec<(&'static str, Vec<Vec<Vec<S>>>, usize)> {
             7,
         ),
         (
+            // states that receive optional stack slots (recursive ascent): items of different
+            // prefix lengths in one state, a callee popping only the upper part of the known stack
+            // X = a Y q | a b t p ; Y = b t | b Z | b Q ; Z = t u ; Q = Y r
+            "overlapping-prefixes",
+            vec![
+                vec![vec![t(0), n(1), t(4)], vec![t(0), t(1), t(2), t(3)]],
+                vec![vec![t(1), t(2)], vec![t(1), n(2)], vec![t(1), n(3)]],
+                vec![vec![t(2), t(5)]],
+                vec![vec![n(1), t(6)]],
+            ],
+            7,
+        ),
+        (
+            // same idea, nested one level deeper and with a left-recursive tail
+            "overlapping-prefixes-2",
+            vec![
+                vec![vec![t(0), t(1), n(1), t(3)], vec![t(0), t(1), t(2), t(2), t(4)], vec![n(0), t(5)]],
+                vec![vec![t(2)], vec![t(2), t(2)], vec![t(2), n(2)]],
+                vec![vec![n(1), t(6)], vec![t(6)]],
+            ],
+            7,
+        ),
+        (
             "two-eps",
             vec![
                 vec![vec![n(1), n(2), t(0)]],
@@ -385,6 +408,19 @@ fn mutate(r: &mut Rng, g: &mut Cfg, bang: bool) {
             }
         }
     }
+}
+
+/// the `i`-th grammar of a run: every template once (unmutated) first, then the random streams
+pub fn gen_cfg_indexed(r: &mut Rng, i: usize, allow_bang: bool) -> Cfg {
+    let ts = templates();
+    if i < ts.len() {
+        let (name, nts, nterm) = ts[i].clone();
+        let g = Cfg { nts, nterm, pubs: vec![0], lalr: false, origin: name.to_string() };
+        if allow_bang || !g.uses_bang() {
+            return g;
+        }
+    }
+    gen_cfg(r, allow_bang)
 }
 
 /// a grammar that certainly uses `!` (recovery-focused runs)
